@@ -216,8 +216,10 @@ Definition map_step (m : list (Z * Z)) (o : map_op) : list (Z * Z) * res :=
 
 Definition MapSpec : Spec := mkSpec [] map_step.
 
-(** ** Boolean equality of abstract states, for [Lin.lincheck_memo].
-    [zlist_eqb] serves every specification above except [MapSpec], which uses [zzlist_eqb]. *)
+(** ** Boolean equality and hash of abstract states, for [Lin.lincheck_memo].
+    [zlist_eqb], [zlist_hash] serve every specification above except [MapSpec], which uses
+    [zzlist_eqb], [zzlist_hash].  Only the soundness of the equalities matters for the
+    correctness of [lincheck_memo]; the hashes merely spread its cache. *)
 
 Fixpoint zlist_eqb (a b : list Z) : bool :=
   match a, b with
@@ -247,3 +249,17 @@ Proof.
   apply andb_true_iff in H; destruct H as [H1 H2].
   apply Z.eqb_eq in H1; apply Z.eqb_eq in H2; apply IH in H3; congruence.
 Qed.
+
+Definition zhash (x : Z) : positive :=
+  match x with Z0 => xH | Zpos p => xO p | Zneg p => xI p end.
+
+Fixpoint zlist_hash_from (acc : positive) (l : list Z) : positive :=
+  match l with
+  | [] => acc
+  | x :: l' => zlist_hash_from (pmix acc (zhash x)) l'
+  end.
+
+Definition zlist_hash (l : list Z) : positive := zlist_hash_from 1 l.
+
+Definition zzlist_hash (l : list (Z * Z)) : positive :=
+  zlist_hash_from 1 (flat_map (fun kv => [fst kv; snd kv]) l).
